@@ -675,6 +675,9 @@ namespace chaiscript {
       }
 
     private:
+#ifdef CHAISCRIPT_VERIF
+      friend struct ::chaiscript_verif::Access;
+#endif
       const std::vector<std::string> m_param_names;
       const bool m_this_capture = false;
       const std::shared_ptr<AST_Node_Impl<T>> m_lambda_node;
